@@ -475,7 +475,7 @@ impl<C: Cfg> World<C> {
                     None => {
                         let why = seen.why_bad();
                         self.fail(
-                            MON_MODEL | MON_OWN | MON_VALID | MON_MEM,
+                            MON_MODEL | MON_OWN | MON_VALID | MON_MEM | MON_VIEW,
                             format!("{}:visible-{:?}", ctx, seen.slot),
                             format!("after {}: slot {} element {} is {} (id {}); model expects payload {}", ctx, s, i, why, seen.id, self.model[s][i]),
                         );
@@ -485,7 +485,7 @@ impl<C: Cfg> World<C> {
                         if p != self.model[s][i] {
                             let got: Vec<String> = snap.iter().map(|x| x.payload.map(|p| p.to_string()).unwrap_or("?".into())).collect();
                             self.fail(
-                                MON_MODEL,
+                                MON_MODEL | MON_VIEW,
                                 format!("{}:sequence", ctx),
                                 format!("after {}: slot {} = [{}] but Vec model = {:?} (first difference at {})", ctx, s, got.join(","), self.model[s], i),
                             );
